@@ -168,7 +168,24 @@ class C14(Check):
                 if not o.get('fault') and o['op'] in ('compile', 'run', 'to_yaml', 'getter', 'update_template', 'deepcopy') \
                         and o.get('obj', 'T') == 'T' and rng.random() < (0.35 if stratum == 'S-fault' else 0.12):
                     o['fault'] = {'kind': 'intr', 'at_call': rng.randint(1, 900 if o['op'] in ('compile', 'run') else 60)}
-        return {'spec': spec, 'sibling': sibling, 'ops': ops}
+        trace = {'spec': spec, 'sibling': sibling, 'ops': ops}
+        # epilogue (a third of the hierarchical runs): after the history, ONE legitimate in-place edit of an edge weight made
+        # through the object of the circuit that owns the edge; a template that was only read / copied before must follow it
+        # exactly like a freshly built twin that was never touched
+        owners = []
+
+        def walk(s_, path):
+            for i, e in enumerate(s_.get('edges', [])):
+                if not e[2].get('et'):
+                    owners.append((path, i))
+            for k_, sub in (s_.get('circuits') or {}).items():
+                walk(sub, path + [k_])
+        walk(spec, [])
+        owners = [o_ for o_ in owners if o_[0]]          # edges owned by a sub-circuit
+        if owners and not spec.get('twin_sub') and rng.random() < 0.5:
+            path, i = rng.choice(owners)
+            trace['epilogue'] = {'path': path, 'edge': i, 'weight': rng.choice([0.8125, -1.1875, 2.3125, -0.4375])}
+        return trace
 
     # ---------------------------------------------------------------------------------------------------
     def execute(self, trace):
@@ -242,6 +259,27 @@ class C14(Check):
                     first[key] = cmp_
             # (2) behaviour, judged by the pristine observer after the history
             obsv.submit(snapshot(T), 'obs_both')
+        ep_jobs = None
+        ep = trace.get('epilogue')
+        if ep and not viol:
+            try:
+                def owner(top, sp):
+                    c_, s_ = top, sp
+                    for k_ in ep['path']:
+                        c_, s_ = c_.circuits[k_], s_['circuits'][k_]
+                    return c_, s_['edges'][ep['edge']]
+                T2 = models.build(copy.deepcopy(spec), fname='m_T2')          # built afresh, never read or copied
+                for top in (T, T2):
+                    c_, e_ = owner(top, spec)
+                    c_.update_var(edge_vars=[(e_[0], e_[1], {'weight': ep['weight']})])
+                b1_, b2_ = snapshot(T), snapshot(T2)
+                ep_jobs = len(obsv.jobs)
+                obsv.submit(b1_, 'obs_both')
+                obsv.submit(b2_, 'obs_both')
+                res['probes']['epilogue_edit'] = 1
+            except Exception as e:
+                res['probes']['epilogue_refused'] = 1
+                ep_jobs = None
         res['faults'].update(w.fired)
         res['states'] = sorted(set(w.states))
         # L-usable candidates: a compile/run that raised after other ops.  The SAME call is repeated by the pristine
@@ -253,11 +291,22 @@ class C14(Check):
             if op['op'] in ('compile', 'run') and out.get('status') == 'raised' and seen_any and op.get('obj', 'T') == 'T':
                 cands.append((k, op, out))
             seen_any = True
-        n_snap = len(obsv.jobs)
+        n_snap = len(obsv.jobs) if ep_jobs is None else ep_jobs
         for k, op, out in cands[:2]:
             obsv.submit(blob0, 'obs_op', op=op)
         allres = obsv.collect()
+        ep_res = []
+        if ep_jobs is not None:
+            ep_res = allres[ep_jobs:ep_jobs + 2]
+            allres = allres[:ep_jobs] + allres[ep_jobs + 2:]
         snaps, usable = allres[:n_snap], allres[n_snap:]
+        if not viol and len(ep_res) == 2 and ep_res[1].get('scalar', {}).get('status') == 'ok':
+            d = observe.diff(ep_res[0], ep_res[1], rtol=1e-12, atol=0.0)
+            if d:
+                viol.append({'law': 'L-tracks', 'cls': 'silent', 'key': 'edit-after-reads',
+                             'detail': f'after the history of read-only / copy-making operations an edge weight of sub-circuit '
+                                       f'{"/".join(ep["path"])} was set to {ep["weight"]} through that circuit\'s object: the template '
+                                       f'compiles to a different model than a freshly built twin given the same edit: {d[:300]}'})
         if not viol:
             base = snaps[0]
             for k, s_ in enumerate(snaps[1:]):
